@@ -1057,6 +1057,17 @@ def check_scalars(ctx, rp, n, d, v, w, lmin, ts):
             ctx.fail({"kind": "scalar", "method": nm},
                      f"{nm}({lmin}) = {got}, stated function of the histogram gives {e}",
                      {"time_series": ts.tolist(), "l_min": lmin, "expected": e, "observed": got})
+        if nm.endswith("entropy"):
+            # theorem lineEntropy_range on the implementation's value, computed without numpy.log
+            import math
+            hh = [x for x in {"diag_entropy": d, "vert_entropy": v, "white_vert_entropy": w}[nm][lmin - 1:]
+                  if x]
+            hi = (math.log(len(hh)) + eps / (sum(hh) + eps)) if hh else 0.0
+            ctx.count("scalar:entropy-range")
+            if not (-1e-12 <= got <= hi + 1e-12):
+                ctx.fail({"kind": "scalar", "method": nm, "what": "range"},
+                         f"{nm}({lmin}) = {got} outside [0, log k + eps/(n+eps)] = [0, {hi}]",
+                         {"time_series": ts.tolist(), "l_min": lmin, "observed": got, "bound": hi})
     if lmin == 1:
         for nm, e in (("max_diaglength", mx(d)), ("max_vertlength", mx(v)),
                       ("max_white_vertlength", mx(w))):
